@@ -1,7 +1,7 @@
 (* C04 -- Master/minion and VirtualServer/Route composition is exactly as declared.
    Only statements, each closed by [exact] and followed by Print Assumptions. *)
 From Coq Require Import List ZArith String Bool.
-From NIC Require Import Base.SMap Arb.Types Arb.Model Arb.Spec Arb.WinsProofs Arb.InvProofs Arb.ComposeProofs Arb.MinionProofs Arb.ListenerProofs Arb.MinionGen1 Arb.MinionGen2.
+From NIC Require Import Base.SMap Arb.Types Arb.Model Arb.Spec Arb.WinsProofs Arb.InvProofs Arb.ComposeProofs Arb.MinionProofs Arb.ListenerProofs Arb.MinionGen1 Arb.MinionGen2 Arb.Truth07 Arb.Truth09.
 Import ListNotations.
 Open Scope Z_scope.
 
@@ -98,6 +98,26 @@ Theorem C04_valid_paths_are_the_marks :
                forall p, lookup p (mc_valid_paths mc) = vp_get (ms_vp (scan (minions_of is_ host) (mkMS [] [] []))) (mkey (i_meta i)) p.
 Proof. exact build_minions_marks. Qed.
 Print Assumptions C04_valid_paths_are_the_marks.
+
+(* A minion never attaches to a resource that does not own the host: in the host map that buildHostsAndResources
+   returns (for ANY object set the validators accept), an Ingress resource that carries a minion is a master, it sits
+   under its own host -- i.e. it OWNS that host -- and the minion is a stored minion Ingress of exactly that host. *)
+Theorem C04_minion_attached_to_host_owner :
+  forall c o, cert_manager c = false -> objs_ok o -> objs_wf c o ->
+  forall h ic m, lookup h (hosts_of_objs c o) = Some (RIng ic) -> In m (ic_minions ic) ->
+    (exists k0, In (k0, mc_ing m) (o_ings o)) /\ is_minion (mc_ing m) = true /\
+    is_master (ic_ing ic) = true /\ host0 (mc_ing m) = host0 (ic_ing ic) /\ h = host0 (ic_ing ic) /\ ic_master ic = true.
+Proof. exact attached_minion_facts. Qed.
+Print Assumptions C04_minion_attached_to_host_owner.
+
+(* A route never attaches to a VirtualServer that does not own the host: a VirtualServer resource of the host map
+   sits under its own host, and every route attached to it is a stored VirtualServerRoute of that very host. *)
+Theorem C04_route_attached_to_host_owner :
+  forall c o, cert_manager c = false -> objs_ok o -> objs_wf c o ->
+  forall h vc x, lookup h (hosts_of_objs c o) = Some (RVS vc) -> In x (vc_vsrs vc) ->
+    (exists k0, In (k0, x) (o_vsrs o)) /\ h = v_host (vc_vs vc) /\ r_host x = v_host (vc_vs vc).
+Proof. exact attached_vsr_facts. Qed.
+Print Assumptions C04_route_attached_to_host_owner.
 
 (* composition is a function of the current object set: no dependence on the order of events *)
 Theorem C04_order_independent :
